@@ -251,7 +251,7 @@ def gen_thr(rng, d):
     vals = [dy(rng, -8, 24, 16) for _ in range(npx)]
     mask = None if rng.random() < 0.4 else [rng.random() < 0.6 for _ in range(npx)]
     het = rng.random() < 0.6
-    as_float = mask is None and rng.random() < 0.3  # return_float only changes the dtype of the unmasked result
+    as_float = rng.random() < 0.4  # return_float may change the dtype, never the selection - with or without a mask
     lab = np.array([label_values[l] for l in labs]).reshape(shape)
     sig = np.array([float(v) for v in vals]).reshape(shape)
     if het:
@@ -277,8 +277,8 @@ def gen_thr(rng, d):
         impl = repr(out)
     else:
         out = np.asarray(out)
-        if as_float and out.dtype.kind != "f" or not as_float and out.dtype != bool or not np.all((out == 0) | (out == 1)):
-            impl = "!dtype"
+        if out.dtype.kind not in "fbiu" or not np.all((out == 0) | (out == 1)):
+            impl = "!values"
         else:
             impl = "!shape" if out.shape != shape else " ".join("1" if b else "0" for b in out.ravel())
     # the statement itself, evaluated directly
@@ -287,7 +287,7 @@ def gen_thr(rng, d):
         a = lo[l] if het else lo
         b = None if hi is None else (hi[l] if het else hi)
         want.append(a < v and (b is None or v < b) and (mask is None or mask[i]))
-    return line, impl, dict(want=" ".join("1" if b else "0" for b in want), shape=shape, het=het)
+    return line, impl, dict(want=" ".join("1" if b else "0" for b in want), shape=shape, het=het, return_float=as_float, masked=mask is not None)
 
 
 # ---------------------------------------------------------------------------
@@ -589,8 +589,10 @@ def oracle_threshold(ctx, d, thr_cases):
     for line, impl, info in thr_cases:
         ctx.count(("thr", line))
         if "want" in info and impl != info["want"]:
-            ctx.fail(f"C14:StaticThresholdModel.__call__({'het' if info['het'] else 'hom'})", "result is not `strictly between the bounds, inside the mask`",
-                     {"line": line, "observed": impl, "required": info["want"]})
+            opt = ",return_float" if info.get("return_float") else ""
+            opt += ",mask" if info.get("masked") else ""
+            ctx.fail(f"C14:StaticThresholdModel.__call__({'het' if info['het'] else 'hom'}{opt})", "result is not `strictly between the bounds, inside the mask`",
+                     {"line": line, "return_float": info.get("return_float"), "mask_given": info.get("masked"), "observed": impl, "required": info["want"]})
 
 
 def oracle_poly(ctx, d, poly, sizes):
@@ -1061,6 +1063,26 @@ def wrapper_resize_boundary(ctx, d):
         lines.append(f"resize {h} {w} {h} {w} " + " ".join(str(int(v)) for v in lab.ravel()))
         back = call(m, np.ones((h, w)))
         impl.append(repr(back) if isinstance(back, Raised) else " ; ".join(" ".join(str(int(uniq[int(v) - 2])) for v in row) for row in np.asarray(back)))
+    # call sequences on one instance: the model predicts the label map in force at the LAST call
+    for _ in range(ctx.pick(30, 200)):
+        lab, shapes, _, _ = label_sequence_case(rng)
+        if rng.random() < 0.5:
+            shapes = shapes[:-1] + [(rng.randint(1, NEAR_MAX), rng.randint(1, NEAR_MAX))]
+        laba = np.array(lab, dtype=np.int32)
+        uniq = np.unique(laba)
+        lines.append(f"labelseq {laba.shape[0]} {laba.shape[1]} " + " ".join(str(int(v)) for v in laba.ravel()) + f" | {len(shapes)} " + " ".join(f"{a} {b}" for a, b in shapes))
+        m = call(d.HeterogeneousLinearModel, laba.copy(), scaling=[float(i + 2) for i in range(len(uniq))], offset=[0.0] * len(uniq))
+        out = m
+        for shp in shapes:
+            if isinstance(out, Raised):
+                break
+            out = call(m, np.ones(shp))
+        if isinstance(out, Raised) or np.asarray(out).shape != tuple(shapes[-1]):
+            impl.append(repr(out) if isinstance(out, Raised) else "!shape")
+            continue
+        dec = np.asarray(out)
+        ok = np.all((dec >= 2) & (dec < len(uniq) + 2) & (dec == np.round(dec)))
+        impl.append(" ; ".join(" ".join(str(int(uniq[int(v) - 2])) for v in row) for row in dec) if ok else "!values")
     ctx.correspond("label-map-resize", lines, impl)
 
     # (3) the isclose boundary of ScalingModel: the two floats next to either boundary, signals +-2^j (exact products)
@@ -1075,6 +1097,59 @@ def wrapper_resize_boundary(ctx, d):
         cases.append(Case("comb", [("scaling", Fraction(sval)), ("clip", Fraction(-100), Fraction(100))], None, pix, [0], (8,)))
     ctx.correspond("scaling-isclose-boundary", [c.line() for c in cases], [c.run_impl(d) for c in cases])
     ctx.cov["isclose_boundary"] = {"floats_adjacent_to_boundary_agree_with_guard": ok, "scalings": [repr(s_) for s_, _ in boundary_scalings()]}
+
+
+def label_sequence_case(rng):
+    h, w = rng.randint(2, NEAR_MAX), rng.randint(2, NEAR_MAX)
+    L = rng.randint(2, 4)
+    label_values = sorted(rng.sample(range(0, 40), L))
+    # fine structure: 1-px stripes / checkerboard / random, so that a down-sampled copy differs from the original
+    kind = rng.choice(["stripes", "checker", "random"])
+    lab = [[label_values[(j if kind == "stripes" else i + j) % L] if kind != "random" else rng.choice(label_values) for j in range(w)] for i in range(h)]
+    shapes = []
+    for _ in range(rng.randint(2, 4)):
+        shapes.append(rng.choice([(h, w), (max(1, h // rng.randint(2, 4)), max(1, w // rng.randint(2, 4))), (rng.randint(1, NEAR_MAX), rng.randint(1, NEAR_MAX)),
+                                  (h * 2, w)]))
+    shapes.append((h, w))  # end at the native resolution
+    L = len({v for row in lab for v in row})  # the labels that actually occur
+    return lab, shapes, [dy(rng) for _ in range(L)], [dy(rng) for _ in range(L)]
+
+
+def run_label_sequence(d, lab, shapes, sc, of, sigs=None):
+    """one HeterogeneousLinearModel, called with signals of the given shapes in turn. Required (property): wherever the signal has
+    the shape of the label map, the result is the homogeneous LinearModel(scaling[l], offset[l]) on every labelled region of the
+    ORIGINAL labels - whatever was called before. -> None | dict"""
+    laba = np.array(lab, dtype=np.int32)
+    uniq = np.unique(laba)
+    m = call(d.HeterogeneousLinearModel, laba.copy(), scaling=[float(x) for x in sc], offset=[float(x) for x in of])
+    if isinstance(m, Raised):
+        return {"step": -1, "what": f"constructor raises {m!r}"}
+    for i, shp in enumerate(shapes):
+        sig = np.arange(shp[0] * shp[1], dtype=float).reshape(shp) / 4.0 - 2.0
+        out = call(m, sig.copy())
+        if isinstance(out, Raised) or np.asarray(out).shape != tuple(shp):
+            return {"step": i, "shape": list(shp), "what": f"call raises / wrong shape: {out!r}"[:160]}
+        if tuple(shp) == laba.shape:
+            want = np.zeros(shp)
+            for li, l in enumerate(uniq):
+                hom = d.LinearModel(scaling=float(sc[li]), offset=float(of[li]))(sig)
+                want[laba == l] = hom[laba == l]
+            if not np.array_equal(out, want):
+                bad = np.argwhere(np.asarray(out) != want)[0].tolist()
+                return {"step": i, "shape": list(shp), "what": "at the resolution of the label map the label-wise model differs from the homogeneous model of the label "
+                        "on its region (after earlier calls at other resolutions)", "pixel": bad, "observed": float(np.asarray(out)[tuple(bad)]),
+                        "required": float(want[tuple(bad)]), "label": int(laba[tuple(bad)])}
+    return None
+
+
+def oracle_label_sequences(ctx, d):
+    for _ in range(ctx.pick(40, 300)):
+        lab, shapes, sc, of = label_sequence_case(ctx.rng)
+        ctx.count(("label-seq", str(lab), str(shapes)))
+        bad = run_label_sequence(d, lab, shapes, sc, of)
+        if bad:
+            ctx.fail("C14:HeterogeneousLinearModel.__call__:call-sequence", f"call {bad['step']} of a sequence on one instance: {bad['what']}",
+                     {"label_sequence": {"labels": lab, "shapes": [list(s_) for s_ in shapes], "scaling": [str(x) for x in sc], "offset": [str(x) for x in of]}, **bad})
 
 
 def oracle_kernel(ctx, d):
@@ -1156,6 +1231,11 @@ def replay(data):
         z = rp["zero_update"]
         bad, got, want, wm = check_zero_update(d, z["kind"], z["dofs"], z["zero_is_float"], z["route"])
         print(json.dumps({"call": z, "expected_models_after": wm, "observed": got, "required": want, "still_failing": bad}, indent=1, default=str))
+        return 1 if bad else 0
+    if "label_sequence" in rp:
+        k = rp["label_sequence"]
+        bad = run_label_sequence(d, k["labels"], [tuple(x) for x in k["shapes"]], [Fraction(x) for x in k["scaling"]], [Fraction(x) for x in k["offset"]])
+        print(json.dumps({"sequence": k, "still_failing": bool(bad), "now": bad}, indent=1, default=str))
         return 1 if bad else 0
     if "kernel_sequence" in rp:
         k = rp["kernel_sequence"]
@@ -1256,6 +1336,7 @@ def run(ctx):
     oracle_models(ctx, d)
     oracle_threshold(ctx, d, thr)
     oracle_zero_updates(ctx, d)
+    oracle_label_sequences(ctx, d)
     oracle_kernel(ctx, d)
     oracle_kernel_sequences(ctx, d)
     kernel_state_correspondence(ctx, d)
